@@ -194,7 +194,6 @@ def judge(lab, case, res=None, want_locate=True):
     info["fault"] = fault
     fails = []
     if tp != tg:
-        one = tp[0] == "pyexc" or tg[0] == "pyexc"
         det = "termination differs: python %s (pc=%s running=%s), gcc %s (pc=%s running=%s)" % (
             term_desc(py), _hx(tp[-2]), tp[-1], term_desc(gc), _hx(tg[-2]), tg[-1])
         if tp[:-2] == tg[:-2]:
@@ -204,8 +203,7 @@ def judge(lab, case, res=None, want_locate=True):
             fails.append(("%s|term|py=%s|gcc=%s" % (prefix, term_desc(py), term_desc(gc)), det
                           + ("; python message: %s" % pyc[2][2] if tp[0] == "pyexc" else "")))
         # termination differs: the state comparison would only restate it
-        if one or tp[0] != tg[0]:
-            return fails, info
+        return fails, info
     bp_p = [e for e in py["events"] if e[0] == "bp"]
     bp_g = [e for e in gc["events"] if e[0] == "bp"]
     if bp_p != bp_g:
@@ -376,6 +374,9 @@ class C20(Check):
     # -- shard -------------------------------------------------------------------------------
     def run_shard(self, tier, seed, shard, nshards):
         res = ShardResult()
+        if not jitlab.shard_enabled(shard):
+            res.dropped["shard-not-selected(VERIF_ONLY_SHARDS)"] += 1
+            return res
         maps = MAPS_THOROUGH if tier == "thorough" else MAPS_QUICK
         units, ngen = plan_units(tier)
         mine = [u for i, u in enumerate(units) if i % nshards == shard]
